@@ -486,11 +486,29 @@ func runC12(rc *RunCtx) {
 			}
 		}
 	}
-	// (c) cubbyhole
-	t1, _, _ := h.CreateToken("", map[string]any{"policies": []string{"default"}, "ttl": "1h"})
+	// (c) cubbyhole. The writing token is a generated one, a token with an
+	// operator-chosen id (its cubbyhole is keyed differently), or a token of
+	// namespace team/.
+	t1kind := tp.Pick(3)
+	rc.Cfg("cubbyhole_token", []string{"generated", "custom-id", "namespace"}[t1kind])
+	t1data := map[string]any{"policies": []string{"default"}, "ttl": "1h"}
+	customID := fmt.Sprintf("custom-token-id-%d", tp.Pick(1<<20))
+	if t1kind == 1 {
+		t1data["id"] = customID
+	}
+	var t1 string
+	t1ns := ""
+	if t1kind == 2 && !sealable {
+		if r, err := rootDo("team/", "auth/token/create", logical.UpdateOperation, map[string]any{"policies": []string{"default"}, "ttl": "1h"}); err == nil && r != nil && r.Auth != nil {
+			t1, t1ns = r.Auth.ClientToken, "team/"
+		}
+	}
+	if t1 == "" {
+		t1, _, _ = h.CreateToken("", t1data)
+	}
 	t2, _, _ := h.CreateToken("", map[string]any{"policies": []string{"default"}, "ttl": "1h"})
 	cub := fmt.Sprintf("CANARY-cubby-%d", tp.Pick(1<<20))
-	h.Do("cub", Req{Op: logical.UpdateOperation, Path: "cubbyhole/mine", Token: t1, Data: map[string]any{"v": cub}})
+	h.Do("cub", Req{Op: logical.UpdateOperation, Path: "cubbyhole/mine", Token: t1, NS: t1ns, Data: map[string]any{"v": cub}})
 	for _, p := range []string{"cubbyhole/mine", "cubbyhole//mine", "cubbyhole/./mine", "cubbyhole/"} {
 		op := logical.ReadOperation
 		if strings.HasSuffix(p, "/") {
@@ -502,7 +520,7 @@ func runC12(rc *RunCtx) {
 			return
 		}
 	}
-	if r, _ := h.Do("cub", Req{Op: logical.ReadOperation, Path: "cubbyhole/mine", Token: t1}); !respHasCanary(r, cub) {
+	if r, _ := h.Do("cub", Req{Op: logical.ReadOperation, Path: "cubbyhole/mine", Token: t1, NS: t1ns}); !respHasCanary(r, cub) {
 		viol("cubbyhole-lost", nil, "the writing token cannot read its own cubbyhole entry")
 		return
 	}
@@ -510,10 +528,21 @@ func runC12(rc *RunCtx) {
 	s.SetControlled()
 	s.Drain(30*time.Second, 5*time.Second)
 	s.PassThrough()
-	for _, k := range disk.RawKeys("logical/") {
-		if strings.HasSuffix(k, "/mine") {
-			viol("cubbyhole-remains", nil, "cubbyhole entry %q still in storage after the revocation of its token", k)
+	for _, k := range disk.RawKeys("") {
+		if strings.HasSuffix(k, "/mine") && strings.Contains(k, "logical/") {
+			viol("cubbyhole-remains", map[string]any{"token": []string{"generated", "custom-id", "namespace"}[t1kind]}, "cubbyhole entry %q still in storage after the revocation of its token", k)
 			return
+		}
+	}
+	// a token issued later under the same (operator-chosen) id is a different
+	// token: it must not find the revoked token's cubbyhole
+	if t1kind == 1 {
+		if t3, _, err := h.CreateToken("", t1data); err == nil && t3 != "" {
+			if r, _ := h.Do("cub", Req{Op: logical.ReadOperation, Path: "cubbyhole/mine", Token: t3}); respHasCanary(r, cub) {
+				viol("cubbyhole-visible-to-other-token", map[string]any{"how": "token id reused after revocation"}, "a token created with the id of a revoked token reads the revoked token's cubbyhole: %v", r.Data)
+				return
+			}
+			s.Probe("custom_id_token_recreated")
 		}
 	}
 	// (e) sealed namespace
